@@ -1,4 +1,6 @@
 import CacheVerif.Proofs.ProtoLocks
+import CacheVerif.Proofs.DeepTrace
+import CacheVerif.Proofs.DeepTraceOf
 /-!
 # C13 — every call terminates: no deadlock or lost wake-up; callbacks may re-enter
 
@@ -63,5 +65,29 @@ def exP : Params Nat := { growThr := fun n => n * 9 / 4, shrinkThr := fun n => n
 example : Reach (V := Nat) exP (init exP) := ⟨[], rfl⟩
 example : ∃ s, run (V := Nat) exP (init exP) [(0, { op := some (.dc 1 (fun _ => (5, false)) false false) }), (0, {}), (0, {})] = some s ∧
     (s.l 0).pc = .dcChkResizing := ⟨_, rfl, rfl⟩
+
+/-! ### The evicted callback runs outside internal locks — in the source text
+
+`Deep.deepTrace` runs the method bodies printed from the working tree with a tracing interpreter that marks an
+evicted callback (or a visitor) invoked from inside a closure handed to `Compute`, i.e. under a bucket lock, as
+`calledLocked`.  For every state and every call of `Set`, the `Get` family, `GetOrSet`, `GetAndSet`,
+`GetAndRefresh`, `GetOrCompute`, `Compute`, `GetAndDelete`, `Delete`, `DeleteExpired`, `Clear`, `Count` and the two
+setters, in both files, the trace contains no such action: whatever the callback then does (re-enter the cache
+included), it holds no lock of the cache. -/
+
+section source
+open Model Model.ConcCache
+variable {K V : Type} [DecidableEq K] [Inhabited V]
+
+theorem C13_source_callbacks_unlocked (s : CSt K V) (op : COp K V) :
+    (∀ r, Deep.deepTrace Deep.twinMapTr s (toSpec op) = some r → Deep.Ev.calledLocked ∉ r.2.2) ∧
+    (∀ r, Deep.deepTrace Deep.twinMapOfTr s (toSpec op) = some r → Deep.Ev.calledLocked ∉ r.2.2) :=
+  ⟨DeepTrace.callbacks_unlocked s op, DeepTraceOf.callbacks_unlocked s op⟩
+
+/-- not vacuous: the traced run exists and records the callback as an ordinary (unlocked) action -/
+example : (Deep.deepTrace Deep.twinMapTr (⟨[("a", ⟨1, 5⟩)], 10, 0, some 7⟩ : CSt String Nat) (.getAndDelete "a")).map (·.2.2) =
+    some [.compute "a", .loadSetting "evictedCallback", .fire 7 "a" 1] := by
+  simp [Deep.deepTrace, deep_simp, Deep.twinMapTr, Deep.twinMap, Spec.AMap.erase, Gen.item_expired]
+end source
 
 end Props.C13
